@@ -101,7 +101,8 @@ CHECKS = {
             "Hypothesis-generated scenarios x schedules with lazy_stepping=True; history monitor + metamorphic "
             "control run with lazy_stepping=False",
             "At every step() begin of a producer no direct consumer may be in a step, or have a known demanded step, "
-            "earlier than that time; the control run without lazy stepping must run ahead (non-triviality).",
+            "earlier than that time; the control run without lazy stepping must run ahead (non-triviality). Includes "
+            "real-time cases on the virtual clock (consumers several periods slow).",
             "'Outstanding' = demanded according to replies observed so far.",
             "DESIGN.md 4/C10"),
     "C04": ("exploration",
@@ -124,11 +125,14 @@ CHECKS = {
     "C14": ("fault_enumeration",
             "enumeration of every request index (setup_done, step, get_data) x fault kind x transport x schedule x "
             "shutdown mode on base scenarios + Hypothesis triples, under the controlled loop (exact hang verdicts)",
-            "A simulator raises or its connection closes at every request index: run() must end (idle loop = hang), "
-            "within the stop time-outs (virtual clock), every other simulator finalized exactly once, loop closed, "
-            "no open transport, no pending task.",
-            "Process death is modelled on the in-memory transport (real-process tier not built); open finding F15 "
-            "(runner tasks of the other simulators keep running during shutdown) excluded by signature.",
+            "A simulator raises, closes its connection or has it reset at every request index (incl. forwarded "
+            "asynchronous requests in controller/agent scenarios): run() must end (idle loop = hang), within the stop "
+            "time-outs (virtual clock), every other simulator finalized exactly once, loop closed, no open transport, "
+            "no pending task. Sampled real-process tier: three cmd simulators over TCP, one dies (os._exit) or "
+            "raises: run() ends, the other processes finalize once and exit, no descriptor leak.",
+            "Exhaustive enumeration on the in-memory transport; the real-process tier is sampled and uses wall-clock "
+            "budgets (time-out re-run once); open finding F15 (runner tasks keep running during shutdown) excluded "
+            "by signature.",
             "DESIGN.md 4/C14"),
     "C11": ("exploration",
             "model-based testing: Hypothesis-generated programs of scenario-API calls interpreted against the real "
@@ -136,9 +140,11 @@ CHECKS = {
             "Programs (enter/leave world.group(), start with generated model descriptions, connect with valid and "
             "invalid attribute names and every flag combination) run against the World and a model: ScenarioError "
             "iff one of the four documented reasons holds; afterwards run() must show values exactly on accepted "
-            "slots, judge cycles by the accepted flows only, and entity_graph edges only from accepted pairs.",
-            "Attribute classes from C12's reference solver; behavioural group scoping (sub-time visibility) is "
-            "judged by C01/C02's monitor with the reference group semantics.",
+            "slots, judge cycles by the accepted flows only, and entity_graph edges only from accepted pairs. "
+            "Behavioural tier: a weak loop in one group and an observer in the same / nested / sibling / cousin / "
+            "other-depth group under several schedules, judged by the history monitor (who may follow whose sub-steps).",
+            "Attribute classes from C12's reference solver; the scoping tier trusts the monitor's reference group "
+            "semantics (calibrated on the repository's scenario expectations, DESIGN 10.8).",
             "DESIGN.md 4/C11"),
     "C15": ("exploration",
             "complete version table (16 versions x explicit x 5 stub kinds x type) + Hypothesis versions; recorded "
@@ -154,8 +160,8 @@ CHECKS = {
             "set_data delivery, ordering and refusal",
             "Agents (local and in-memory remote) call set_data/get_data during their steps: every accepted value must "
             "appear exactly once in the controller's next step, the controller must not begin a later step while an "
-            "agent's step is unfinished, calls without an async_requests connection must be refused with "
-            "ScenarioError and leave no effect.",
+            "agent's step is unfinished, calls without an async_requests connection (first and repeated, set and get) "
+            "must be refused with ScenarioError and leave no effect.",
             "Values returned by async get_data are not judged.",
             "DESIGN.md 4/C16"),
     "C17": ("exploration",
